@@ -344,22 +344,32 @@ def gen_ticks(rng):
     return ticks
 
 
-def check_set_dim(h, ctx, nl):
+def check_set_dim(h, ctx, nl, own_before_link=None):
     da = h.new_array(max(nl, 1))
-    st = da.append_set_dimension(["l%d" % i for i in range(nl)] if nl else None)
+    if own_before_link is None:
+        st = da.append_set_dimension(["l%d" % i for i in range(nl)] if nl else None)
+    else:
+        # a category dimension that had labels of its own (another number of them) and then takes its labels from a text array: the
+        # categories are the linked ones
+        st = da.append_set_dimension(["own%d" % i for i in range(own_before_link)])
+        src = h.b.create_data_array("labels_for_a%d" % h.n_arrays, "t", dtype=h.nix.DataType.String,
+                                    data=h.np.array(["c%d" % i for i in range(nl)], dtype=object))
+        st.link_data_array(src, [-1])
+        if tuple(st.labels) != tuple("c%d" % i for i in range(nl)):
+            ctx.violation("set.linked_labels_differ", {"got": list(st.labels), "expected": ["c%d" % i for i in range(nl)]}, {"dim": "set", "labels": nl, "own": own_before_link})
     n = nl if nl else None
     coord = lambda i: F(i)
-    rep = {"dim": "set", "labels": nl}
+    rep = {"dim": "set", "labels": nl, "own_labels_before_link": own_before_link}
     cand = [F(x) for x in ["-1", "-0.5", "0", "0.5", "1", "1.5", "2", "3", "3.5", "5", "5.5", "6", "7", "10", "1999"]]
     for p in cand:
         pcls = "before" if p < 0 else ("zero" if p == 0 else (("on" if p.denominator == 1 else "between") + ("_beyond" if n is not None and p > n - 1 else "")))
         for m in h.MODES:
-            h.index_of("set", st, coord, n, p, m, pcls, (nl,), rep)
+            h.index_of("set", st, coord, n, p, m, pcls, (nl, own_before_link), rep)
     for a in cand:
         for b in cand:
             cls = "reversed" if a > b else ("point" if a == b else "interval")
             for sm in h.SMODES:
-                h.range_indices("set", st, coord, n, a, b, sm, cls, (nl, a < 0, n is not None and b > n - 1), rep)
+                h.range_indices("set", st, coord, n, a, b, sm, cls, (nl, a < 0, n is not None and b > n - 1, own_before_link), rep)
 
 
 def run_shard(spec, ctx):
@@ -376,6 +386,9 @@ def run_shard(spec, ctx):
         for nl in [0, 1, 2, 3, 4, 6]:
             if (nl % NSHARDS) == spec["i"] or ctx.tier == "thorough":
                 ctx.guarded("set", check_set_dim, h, ctx, nl)
+        for nl, own in [(2, 5), (5, 2), (3, 3), (1, 4), (6, 1)]:
+            if ((nl + own) % NSHARDS) == spec["i"] or ctx.tier == "thorough":
+                ctx.guarded("set_linked", check_set_dim, h, ctx, nl, own)
     finally:
         h.close()
 
@@ -383,6 +396,10 @@ def run_shard(spec, ctx):
 def replay(w, ctx):
     h = Harness(ctx)
     try:
+        if w["dim"] == "set" and w.get("own_labels_before_link") is not None:
+            ctx.case(("replay",))
+            check_set_dim(h, ctx, int(w["labels"]), int(w["own_labels_before_link"]))
+            return
         if w["dim"] == "sampled":
             da = h.new_array(5)
             d = da.append_sampled_dimension(float(w["interval"]))
